@@ -938,7 +938,7 @@ var sumCrash, sumFault, sumFaultRuns, sumPairs, sumTamper int
 func TestStoreHistories(t *testing.T) {
 	r := evid.R()
 	ctx := context.Background()
-	r.Check(t, r.Scale(64, 700), 1, func(t *rapid.T) {
+	r.Check(t, r.Scale(64, 560), 1, func(t *rapid.T) {
 		c := genC09Case(t)
 		var st caseStats
 		err := sweepCase(ctx, c, &st, func(key, msg string, cc c09Case) bool { return r.Fail(t, key, msg, cc) })
